@@ -252,18 +252,27 @@ func childMicro(cfg *RunCfg) {
 		go func() {
 			defer wg.Done()
 			for j := range jobs {
+				// The detector has no false positives on a fixed schedule but can miss a race
+				// (bounded shadow state): every trace is executed three times on fresh
+				// variables and a location counts as racy when any execution reported it.
 				var r microResult
-				for attempt := 0; attempt < 4; attempt++ {
-					r = execTrace(j.tr, j.nX, 2*time.Millisecond<<uint(attempt))
-					if r.ok {
+				var addrSets []string
+				for rep := 0; rep < 3; rep++ {
+					for attempt := 0; attempt < 4; attempt++ {
+						r = execTrace(j.tr, j.nX, 2*time.Millisecond<<uint(attempt))
+						mu.Lock()
+						keepAll = append(keepAll, r.keep)
+						mu.Unlock()
+						if r.ok {
+							break
+						}
+					}
+					if !r.ok {
 						break
 					}
-					mu.Lock()
-					keepAll = append(keepAll, r.keep)
-					mu.Unlock()
+					addrSets = append(addrSets, strings.Join(r.addrs, " "))
 				}
 				mu.Lock()
-				keepAll = append(keepAll, r.keep)
 				if !r.ok {
 					discarded++
 				} else {
@@ -282,7 +291,7 @@ func childMicro(cfg *RunCfg) {
 							nt = 1
 						}
 					}
-					fmt.Fprintf(f, "%s | %s | %d | %s\n", j.val, strings.Join(r.addrs, " "), nt, j.class)
+					fmt.Fprintf(f, "%s | %s | %d | %s\n", j.val, strings.Join(addrSets, " ; "), nt, j.class)
 				}
 				mu.Unlock()
 			}
@@ -307,4 +316,62 @@ func childMicro(cfg *RunCfg) {
 	time.Sleep(50 * time.Millisecond)
 	fmt.Printf("discarded=%d\n", discarded)
 	sink = int64(len(keepAll))
+}
+
+
+// parseTrace reads the value syntax written by mev.val (for -child replay).
+func parseTrace(v string) ([]mev, int) {
+	var tr []mev
+	nX := 0
+	v = strings.TrimSpace(v)
+	v = strings.TrimPrefix(v, "(")
+	for _, part := range strings.Split(v, ")") {
+		part = strings.TrimSpace(strings.TrimLeft(strings.TrimSpace(part), "("))
+		f := strings.Fields(part)
+		if len(f) < 3 {
+			continue
+		}
+		var e mev
+		e.op = strings.TrimPrefix(f[0], "s")
+		fmt.Sscanf(f[1], "n%d", &e.t)
+		fmt.Sscanf(f[2], "n%d", &e.obj)
+		switch e.op {
+		case "acq", "rel":
+			e.write = f[3] == "smw"
+		case "acc":
+			e.write = f[3] == "swr"
+			e.atomic = f[4] == "strue"
+		}
+		if (e.op == "acc" || e.op == "pub") && e.obj+1 > nX {
+			nX = e.obj + 1
+		}
+		tr = append(tr, e)
+	}
+	return tr, nX
+}
+
+// childReplay executes the traces of <out>/replay.txt (one per line) cfg.N times each and prints
+// the addresses used, so that single cases can be studied by hand.
+func childReplay(cfg *RunCfg) {
+	b, err := os.ReadFile(filepath.Join(cfg.Out, "replay.txt"))
+	Must(err)
+	var keep [][]*int64
+	for li, line := range strings.Split(string(b), "\n") {
+		if strings.TrimSpace(line) == "" {
+			continue
+		}
+		tr, nX := parseTrace(line)
+		for k := 0; k < cfg.N; k++ {
+			for attempt := 0; attempt < 4; attempt++ {
+				r := execTrace(tr, nX, 2*time.Millisecond<<uint(attempt))
+				keep = append(keep, r.keep)
+				fmt.Printf("RUN %d %d attempt=%d ok=%v %s\n", li, k, attempt, r.ok, strings.Join(r.addrs, " "))
+				if r.ok {
+					break
+				}
+			}
+		}
+	}
+	time.Sleep(50 * time.Millisecond)
+	sink = int64(len(keep))
 }
